@@ -86,7 +86,19 @@ Alphabet == CASE Alpha = "core" -> Core
               [] Alpha = "wide" -> Core \cup Extra
               [] Alpha = "slim" -> Slim
 IsLoc(t) == t.op \in {"AdvanceLoc", "SetLoc"}
-CieAlphabet == {t \in Alphabet : ~IsLoc(t)}
+(* in the quick tier the CIE draws from the instructions that shape what   *)
+(* the FDE starts from: 0 / 1 / 2 / 3 initial rules, register or expression*)
+(* CFA, remembered rows, args size, and the invalid restore                *)
+CieQuick == { [op |-> "DefCfa", r |-> 1, o |-> Nat8(1)],
+              [op |-> "DefCfaExpression", x |-> <<OpNop>>],
+              [op |-> "Offset", r |-> 0, f |-> Nat8(1)],
+              [op |-> "ValOffsetSf", r |-> 1, f |-> Int8(-1)],
+              [op |-> "Undefined", r |-> 0],
+              [op |-> "Restore", r |-> 0],
+              T("RememberState"), T("RestoreState"),
+              [op |-> "ArgsSize", s |-> Nat8(1)],
+              T("NegateRaState") }
+CieAlphabet == IF Quick /\ Alpha = "core" THEN CieQuick ELSE {t \in Alphabet : ~IsLoc(t)}
 
 (* the decoded instruction under a vendor *)
 DecodedV(t, off, vendor) == IF t.op = "NegateRaState" /\ vendor = "default"
@@ -171,8 +183,8 @@ DesignOk ==
     /\ IsPrefix(Final(md).out, RFinal.out)
     (* next_row call by call (as the public API is driven) = incremental feeding *)
     /\ Complete => /\ Obs(RunOn(Fresh("heap"), Cfg, c.ci, c.fi)) = Obs(Final(m["heap"]))
-                   /\ Obs(RunOn(Fresh("s22"), Cfg, c.ci, c.fi)) = Obs(Final(m["s22"]))
-                   /\ Obs(RunOn(Fresh("heap"), Cfg, c.cid, c.fid)) = Obs(Final(md))
+                   /\ (~Quick => Obs(RunOn(Fresh("s22"), Cfg, c.ci, c.fi)) = Obs(Final(m["s22"])))
+                   /\ (~Quick => Obs(RunOn(Fresh("heap"), Cfg, c.cid, c.fid)) = Obs(Final(md)))
                    /\ RObs(RRun(Cfg, c.ci, c.fi)) = RObs(RFinal)
                    /\ RowsWellFormed(RObs(RFinal), Cfg)
 
@@ -214,7 +226,11 @@ Stay == UNCHANGED <<m, md, rf, need, stopped>>
 InitL == c = 0 /\ Idle
 NextL == c = 0 /\ c' = 1 /\ Stay
 InvL == c = 1 =>
-    /\ \A v \in LVals : ULeb(v) = EncU(v) /\ SLeb(v) = EncS(v)
+    /\ \A v \in LVals : ULeb(v) = EncU(v) /\ SLeb(v) = EncS(v) /\ Neg8(v) = Neg(v)
+    /\ \A v \in LVals : \A w \in LVals : Mul8(v, w) = Mul(v, w) /\ Add8(v, w) = Add(v, w)
+                                          /\ (AddL(v, w, 0).c # 0) = AddOverflows(v, w)
+    /\ \A n \in {0, 1, 255, 256, 65535, 65536, 16777215, 16777216, 2147483647} : Nat8(n) = FromNat(n, 8)
+    /\ \A n \in {0, 1, -1, -2, -128, -129, -255, -256, -257, -65536, -65537, -16777217, -2147483647} : Int8(n) = FromInt(n, 8)
     /\ \A s \in LStrs : \A p \in 1..2 : LebU(s, p) = LebUSlow(s, p) /\ LebS(s, p) = LebSSlow(s, p)
     /\ \A t \in AllT : \A pre \in {<<>>, <<[op |-> "Nop"]>>, <<[op |-> "Expression", r |-> 1, x |-> <<OpNop, OpNop>>]>>} :
          \A asz \in {1, 8} :
